@@ -240,9 +240,32 @@ def rule_eq_edge(a, b):
     return tuple(a.get("order")) == tuple(b.get("order"))
 
 
+# hand-written ionic reactions: multiply charged atoms (written n+ / n- in GML), reactions in which every bond changes next to a spectator ion
+IONIC = {
+    "neutralisation_na": "[Na+:1].[OH-:2].[H:3][Cl:4]>>[Na+:1].[Cl-:4].[H:3][OH:2]",
+    "sulfide_alkylation": "[S-2:1].[CH3:2][Br:3]>>[S-:1][CH3:2].[Br-:3]",
+    "oxide_water": "[O-2:1].[H:2][O:3][H:4]>>[O-:1][H:2].[O-:3][H:4]",
+    "copper_hydroxide": "[Cu+2:1].[OH-:2]>>[Cu+:1][OH:2]",
+    "iron_chloride": "[Fe+3:1].[Cl-:2]>>[Fe+2:1][Cl:2]",
+    "carbonate_protonation": "[O-:1][C:2](=[O:3])[O-:4].[H+:5]>>[O-:1][C:2](=[O:3])[O:4][H:5]",
+    "phosphate_mg": "[Mg+2:1].[CH3:2][O:3][P:4](=[O:5])([O-:6])[O:7][H:8]>>[Mg+2:1].[CH3:2][O:3][P:4](=[O:5])([O-:6])[O-:7].[H+:8]",
+    "sulfate_dianion_methylation": "[O-:1][S:2](=[O:3])(=[O:4])[O-:5].[CH3:6][I:7]>>[O-:1][S:2](=[O:3])(=[O:4])[O:5][CH3:6].[I-:7]",
+}
+
+
 def gen_rxn(tier, seed):
     for rid, s in er.corpus_reactions():
         yield [rid, s]
+    for name, s in IONIC.items():
+        yield [f"ionic#{name}", s]
+    from mc.curated import CURATED, minimal_explicit
+
+    for name, s0 in CURATED.items():
+        s = minimal_explicit(s0)
+        yield [f"cur#{name}", s]
+        top = max(er.all_maps(s))
+        r, p = er.split(s)
+        yield [f"cur+na#{name}", f"{r}.[Na+:{top + 1}]>>{p}.[Na+:{top + 1}]"]
 
 
 def check_gml(case):
